@@ -24,3 +24,4 @@ run mapset-intersects-any-order.diff C18 C19
 run lcs-strip-common-prefix-suffix.diff C11 C12 C13 C14
 run heap-prefers-right-child-ring-one-allocation.diff C05 C06 C08 C09 C10
 run stack-prealloc-reset-drops-large-map-queue-regrow-reader-buffer.diff C07 C10 C14 C19
+run heapq-cached-less-predicate.diff C05 C06 C08
